@@ -199,8 +199,9 @@ void a_complex_sqrt_(a_complex *ctx)
         }
         else
         {
-            ctx->real = ctx->imag / (2 * w);
-            ctx->imag = ctx->imag < 0 ? -w : w;
+            a_real const v = ctx->imag < 0 ? -w : w;
+            ctx->real = ctx->imag / (2 * v);
+            ctx->imag = v;
         }
     }
 #endif /* A_HAVE_CSQRT */
